@@ -191,6 +191,23 @@ Proof.
   pose proof (N_dec_nonempty id) as Hne. destruct (N_dec id); [contradiction|]. unfold blen. cbn [length]. lia.
 Qed.
 
+Theorem read_at_written_gen file revs pre id g o post :
+  file = pre ++ write_indirect_object id g o ++ post ->
+  g <= 65535 -> top_wf o ->
+  SR.read_at file (SR.lenN file) revs id (blen pre) g =
+  SR.SOk {| SR.l_id := id; SR.l_gen := g; SR.l_off := blen pre;
+            SR.l_end := SR.lenN file - SR.lenN (SR.skip_sp post); SR.l_obj := norm_obj o |}.
+Proof.
+  intros Hf Hg Hw. unfold SR.read_at.
+  replace (65535 <? g) with false by (symmetry; apply N.ltb_ge; exact Hg).
+  pose proof (wio_nonempty id g o) as Hne.
+  assert (Hlen : SR.lenN file = blen pre + blen (write_indirect_object id g o) + blen post).
+  { subst file. unfold SR.lenN, blen. rewrite !app_length. lia. }
+  replace (SR.lenN file <=? blen pre) with false by (symmetry; apply N.leb_gt; lia).
+  rewrite Hf at 1. rewrite at_off_app, wio_objhdr. rewrite !N.eqb_refl. cbn [andb].
+  rewrite (objbody_rt _ id o post Hw). cbn [SR.sbind fst snd]. reflexivity.
+Qed.
+
 Theorem read_at_written file revs pre id g o post :
   file = pre ++ write_indirect_object id g o ++ post ->
   g <= 65535 -> top_wf o -> solid post = true ->
@@ -198,15 +215,9 @@ Theorem read_at_written file revs pre id g o post :
   SR.SOk {| SR.l_id := id; SR.l_gen := g; SR.l_off := blen pre;
             SR.l_end := blen pre + blen (write_indirect_object id g o); SR.l_obj := norm_obj o |}.
 Proof.
-  intros Hf Hg Hw Hp. unfold SR.read_at.
-  replace (65535 <? g) with false by (symmetry; apply N.ltb_ge; exact Hg).
-  pose proof (wio_nonempty id g o) as Hne.
-  assert (Hlen : SR.lenN file = blen pre + blen (write_indirect_object id g o) + blen post).
-  { subst file. unfold SR.lenN, blen. rewrite !app_length. lia. }
-  replace (SR.lenN file <=? blen pre) with false by (symmetry; apply N.leb_gt; lia).
-  rewrite Hf at 1. rewrite at_off_app, wio_objhdr. rewrite !N.eqb_refl. cbn [andb].
-  rewrite (objbody_rt _ id o post Hw). cbn [SR.sbind fst snd].
-  rewrite (skip_sp_solid post Hp). f_equal. f_equal. rewrite Hlen. unfold SR.lenN, blen. lia.
+  intros Hf Hg Hw Hp. rewrite (read_at_written_gen file revs pre id g o post Hf Hg Hw).
+  rewrite (skip_sp_solid post Hp). f_equal. f_equal.
+  subst file. unfold SR.lenN, blen. rewrite !app_length. lia.
 Qed.
 
 (* ---------- all written objects through their entries ---------- *)
